@@ -100,7 +100,10 @@ class Report:
         self.cov["known_findings_seen"] = sorted(k for k in self.violations if (self.prop, k) in self.known)
         if self.inconclusive:
             self.cov["inconclusive"] = self.inconclusive[:20]
-        C.write_file(os.path.join(C.VERIF, "evidence", self.prop + ".json"), json.dumps(ev, indent=1, default=str))
+        # VERIF_EVIDENCE_DIR: trial runs against seeded changes / coverage builds write elsewhere, so that the committed
+        # evidence always comes from a run against /repo itself
+        evdir = os.environ.get("VERIF_EVIDENCE_DIR") or os.path.join(C.VERIF, "evidence")
+        C.write_file(os.path.join(evdir, self.prop + ".json"), json.dumps(ev, indent=1, default=str))
         sys.stdout.flush()
         if new:
             return 1
